@@ -958,7 +958,7 @@ def Session.activated (s : Session) (sp : Bool) (block : Bytes) (now : Nat) : Se
   let rt : Runtime :=
     { s1.rt with sessionResumed := sp, keepaliveMs := c.2.2.2.2.1, sendQuota := c.1 - s1.data.outbound.inflightPublishes, maxSendQuota := c.2.1, maxQos := c.2.2.1, maximumPacketSize := c.2.2.2.1, deficit := decide (c.1 < s1.data.outbound.inflightPublishes) }
   let rt2 : Runtime := { rt with nextPing := rt.keepaliveSendInterval.map (fun i => now + i * 1000), pingTimeout := none }
-  { s1 with rt := rt2, clientId := c.2.2.2.2.2.getD s1.clientId, data := { s1.data with sessionPresent := true, everAccepted := true, halfReset := false, assignedId := c.2.2.2.2.2.or s1.data.assignedId } }
+  { s1 with rt := rt2, clientId := c.2.2.2.2.2.getD s1.clientId, data := { s1.data with sessionPresent := true, everAccepted := true, halfReset := false, assignedId := c.2.2.2.2.2.or s1.data.assignedId }, inlog := [{ pkt := none, acks := s1.data.outbound.control.map PendingControl.action }], rmark := s1.data.outbound.nextRser }
 
 /-- The session after a rejected CONNACK: the reset (if `sp = false`) stays, the ghost flag `halfReset`
 records it, and the session is disconnected. -/
